@@ -113,53 +113,6 @@ theorem decorFunc_warns (env : Env) (conf : Conf) (f : Func) (n w w' : Nat) :
     (decorFunc env conf f ⟨n, w⟩).raised = (decorFunc env conf f ⟨n, w'⟩).raised := by
   func_bash f env conf
 
-/-! ### optional accessors of a property -/
-
-theorem decorFuncOpt_raised (env : Env) (conf : Conf) (f : Option Func) (st : St) :
-    (decorFuncOpt env conf f st).raised = Func.failsOpt env conf f := by
-  cases f with
-  | none => rfl
-  | some f => simp [decorFuncOpt, Func.failsOpt, decorFunc_raised]
-
-theorem decorFuncOpt_idem (env : Env) (conf : Conf) (f : Option Func) (st st' : St) :
-    decorFuncOpt env conf (decorFuncOpt env conf f st).val st' =
-      ⟨(decorFuncOpt env conf f st).val, st', (decorFuncOpt env conf f st).raised⟩ := by
-  cases f with
-  | none => rfl
-  | some f => simp [decorFuncOpt, decorFunc_idem]
-
-theorem decorFuncOpt_facts (env : Env) (conf : Conf) (f : Option Func) (st : St) :
-    (decorFuncOpt env conf f st).val.map Func.facts = f.map Func.facts := by
-  cases f with
-  | none => rfl
-  | some f => simp [decorFuncOpt, decorFunc_facts]
-
-theorem decorFuncOpt_noop (env : Env) (conf : Conf) (f : Option Func) (st : St)
-    (h : Func.noopOpt env conf f = true) :
-    (decorFuncOpt env conf f st).val.map Func.erase = f.map Func.erase ∧ (decorFuncOpt env conf f st).st = st ∧
-    (decorFuncOpt env conf f st).raised = false := by
-  cases f with
-  | none => exact ⟨rfl, rfl, rfl⟩
-  | some f =>
-    have := decorFunc_noop env conf f st h
-    simp [decorFuncOpt, this]
-
-theorem decorFuncOpt_warns (env : Env) (conf : Conf) (f : Option Func) (n w w' : Nat) :
-    (decorFuncOpt env conf f ⟨n, w⟩).val = (decorFuncOpt env conf f ⟨n, w'⟩).val ∧
-    (decorFuncOpt env conf f ⟨n, w⟩).st.next = (decorFuncOpt env conf f ⟨n, w'⟩).st.next ∧
-    (decorFuncOpt env conf f ⟨n, w⟩).raised = (decorFuncOpt env conf f ⟨n, w'⟩).raised := by
-  cases f with
-  | none => exact ⟨rfl, rfl, rfl⟩
-  | some f =>
-    have := decorFunc_warns env conf f n w w'
-    simp [decorFuncOpt, this]
-
-theorem decorFuncOpt_st_warns (env : Env) (conf : Conf) (f : Option Func) (st : St) :
-    (decorFuncOpt env conf f st).st.warns = st.warns := by
-  cases f with
-  | none => rfl
-  | some f => simp [decorFuncOpt, (decorFunc_mono env conf f st).2]
-
 /-! ### the guarded function decision (wrappee of a classmethod / staticmethod) -/
 
 theorem decorFuncObj_raised (env : Env) (conf : Conf) (f : Func) (st : St) :
@@ -191,6 +144,48 @@ theorem decorFuncObj_warns (env : Env) (conf : Conf) (f : Func) (n w w' : Nat) :
     (decorFuncObj env conf f ⟨n, w⟩).st.next = (decorFuncObj env conf f ⟨n, w'⟩).st.next ∧
     (decorFuncObj env conf f ⟨n, w⟩).raised = (decorFuncObj env conf f ⟨n, w'⟩).raised := by
   func_bash f env conf
+
+theorem decorFuncObj_st_fails (env : Env) (conf : Conf) (f : Func) (st : St) (hw : conf.warn = true)
+    (h : f.fails env conf = true) : decorFuncObj env conf f st = ⟨f, ⟨st.next, st.warns + 1⟩, false⟩ := by
+  simp [decorFuncObj, decorFunc_of_fails env conf f st h, guard, hw]
+
+theorem decorFuncObj_not_fails (env : Env) (conf : Conf) (f : Func) (st : St) (h : f.fails env conf = false) :
+    decorFuncObj env conf f st = decorFunc env conf f st := by
+  unfold decorFuncObj guard
+  rw [decorFunc_raised, h]; simp
+
+/-! ### optional accessors of a property (each under the guard) -/
+
+theorem decorFuncObjOpt_raised (env : Env) (conf : Conf) (f : Option Func) (st : St) :
+    (decorFuncObjOpt env conf f st).raised = (Func.failsOpt env conf f && !conf.warn) := by
+  cases f with
+  | none => rfl
+  | some f => simp [decorFuncObjOpt, Func.failsOpt, decorFuncObj_raised]
+
+theorem decorFuncObjOpt_idem (env : Env) (conf : Conf) (f : Option Func) (st st' : St) :
+    (decorFuncObjOpt env conf (decorFuncObjOpt env conf f st).val st').val = (decorFuncObjOpt env conf f st).val ∧
+    (decorFuncObjOpt env conf (decorFuncObjOpt env conf f st).val st').raised = (decorFuncObjOpt env conf f st).raised := by
+  cases f with
+  | none => exact ⟨rfl, rfl⟩
+  | some f =>
+    have := decorFuncObj_idem env conf f st st'
+    simp [decorFuncObjOpt, this.1, this.2]
+
+theorem decorFuncObjOpt_facts (env : Env) (conf : Conf) (f : Option Func) (st : St) :
+    (decorFuncObjOpt env conf f st).val.map Func.facts = f.map Func.facts := by
+  cases f with
+  | none => rfl
+  | some f => simp [decorFuncObjOpt, decorFuncObj_facts]
+
+theorem decorFuncObjOpt_noop (env : Env) (conf : Conf) (f : Option Func) (st : St)
+    (h : Func.noopOpt env conf f = true) :
+    (decorFuncObjOpt env conf f st).val.map Func.erase = f.map Func.erase ∧ (decorFuncObjOpt env conf f st).st = st ∧
+    (decorFuncObjOpt env conf f st).raised = false := by
+  cases f with
+  | none => exact ⟨rfl, rfl, rfl⟩
+  | some f =>
+    have := decorFuncObj_noop env conf f st h
+    simp [decorFuncObjOpt, this]
 
 /-! ### the guard -/
 
@@ -224,9 +219,9 @@ theorem decorLeaf_raised (env : Env) (conf : Conf) (m : Member) (st : St) :
     simp only [decorLeaf, Member.failsLeaf, decorFuncObj_raised]
     by_cases h : f.fails env conf = true <;> cases conf.warn <;> simp [h]
   | prop o doc g s d =>
-    simp only [decorLeaf, Member.failsLeaf, decorFunc_raised, decorFuncOpt_raised]
+    simp only [decorLeaf, Member.failsLeaf, decorFuncObj_raised, decorFuncObjOpt_raised]
     by_cases hg : g.fails env conf = true <;> by_cases hs : Func.failsOpt env conf s = true <;>
-      by_cases hd : Func.failsOpt env conf d = true <;> simp [hg, hs, hd]
+      by_cases hd : Func.failsOpt env conf d = true <;> cases conf.warn <;> simp [hg, hs, hd]
   | klass k => simp [decorLeaf, Member.failsLeaf]
   | other o => simp [decorLeaf, Member.failsLeaf]
 
@@ -253,13 +248,22 @@ theorem decorLeaf_of_fails (env : Env) (conf : Conf) (m : Member) (st : St) (h :
 theorem decorLeaf_of_not_fails_prop (env : Env) (conf : Conf) (o doc g s d) (st : St)
     (h : (Member.prop o doc g s d).failsLeaf env conf = false) :
     decorLeaf env conf (.prop o doc g s d) st =
-      ⟨.prop (decorFuncOpt env conf d (decorFuncOpt env conf s (decorFunc env conf g st).st).st).st.next doc
-          (decorFunc env conf g st).val (decorFuncOpt env conf s (decorFunc env conf g st).st).val
-          (decorFuncOpt env conf d (decorFuncOpt env conf s (decorFunc env conf g st).st).st).val,
-        ⟨(decorFuncOpt env conf d (decorFuncOpt env conf s (decorFunc env conf g st).st).st).st.next + 1,
-         (decorFuncOpt env conf d (decorFuncOpt env conf s (decorFunc env conf g st).st).st).st.warns⟩, false⟩ := by
-  simp only [Member.failsLeaf, Bool.or_eq_false_iff] at h
-  simp [decorLeaf, decorFunc_raised, decorFuncOpt_raised, h.1.1, h.1.2, h.2]
+      ⟨.prop (decorFuncObjOpt env conf d (decorFuncObjOpt env conf s (decorFuncObj env conf g st).st).st).st.next doc
+          (decorFuncObj env conf g st).val (decorFuncObjOpt env conf s (decorFuncObj env conf g st).st).val
+          (decorFuncObjOpt env conf d (decorFuncObjOpt env conf s (decorFuncObj env conf g st).st).st).val,
+        ⟨(decorFuncObjOpt env conf d (decorFuncObjOpt env conf s (decorFuncObj env conf g st).st).st).st.next + 1,
+         (decorFuncObjOpt env conf d (decorFuncObjOpt env conf s (decorFuncObj env conf g st).st).st).st.warns⟩, false⟩ := by
+  have hr := decorLeaf_raised env conf (.prop o doc g s d) st
+  rw [h] at hr
+  revert hr
+  simp only [decorLeaf]
+  split
+  · simp
+  · split
+    · simp
+    · split
+      · simp
+      · intro _; rfl
 
 theorem decorLeaf_shape (env : Env) (conf : Conf) (m : Member) (st : St) :
     (decorLeaf env conf m st).val.shape = m.shape := by
@@ -284,7 +288,7 @@ theorem decorLeaf_shape (env : Env) (conf : Conf) (m : Member) (st : St) :
       · simp [Member.shape, decorFuncObj_facts]
     | prop o doc g s d =>
       rw [decorLeaf_of_not_fails_prop env conf o doc g s d st hf']
-      simp [Member.shape, decorFunc_facts, decorFuncOpt_facts]
+      simp [Member.shape, decorFuncObj_facts, decorFuncObjOpt_facts]
     | klass k => simp [decorLeaf]
     | other o => simp [decorLeaf]
 
@@ -483,9 +487,9 @@ theorem decorLeaf_noop (env : Env) (conf : Conf) (m : Member) (st : St) (h : m.a
       simp [Member.failsLeaf, Func.noop_not_fails env conf g h.1.1, Func.noopOpt_not_fails env conf s h.1.2,
         Func.noopOpt_not_fails env conf d h.2]
     rw [decorLeaf_of_not_fails_prop env conf o doc g s d st hf]
-    have hg := decorFunc_noop env conf g st h.1.1
-    have hs := decorFuncOpt_noop env conf s st h.1.2
-    have hd := decorFuncOpt_noop env conf d st h.2
+    have hg := decorFuncObj_noop env conf g st h.1.1
+    have hs := decorFuncObjOpt_noop env conf s st h.1.2
+    have hd := decorFuncObjOpt_noop env conf d st h.2
     simp [Member.erase, hg.1, hg.2.1, hs.1, hs.2.1, hd.1]
   | klass k => exact absurd rfl (hk k)
   | other o => simp [decorLeaf]
@@ -634,12 +638,26 @@ theorem decorLeaf_idem (env : Env) (conf : Conf) (m : Member) (st st' : St) :
         have hr' : (decorFuncObj env conf f st).raised = false := by simpa using hr
         simp [hr', (hi _).1, (hi _).2, Member.core]
     | prop o doc g s d =>
+      have h0 := decorLeaf_raised env conf (.prop o doc g s d) st
+      rw [hf'] at h0
       rw [decorLeaf_of_not_fails_prop env conf o doc g s d st hf']
-      simp only [Member.failsLeaf, Bool.or_eq_false_iff] at hf'
-      have hg : (decorFunc env conf g st).raised = false := by rw [decorFunc_raised, hf'.1.1]
-      have hs : ∀ x, (decorFuncOpt env conf s x).raised = false := by intro x; rw [decorFuncOpt_raised, hf'.1.2]
-      have hd : ∀ x, (decorFuncOpt env conf d x).raised = false := by intro x; rw [decorFuncOpt_raised, hf'.2]
-      simp [decorLeaf, decorFunc_idem, decorFuncOpt_idem, hg, hs, hd, Member.core]
+      -- no accessor propagates an exception, neither the first nor the second time
+      have hg : ∀ x, (decorFuncObj env conf g x).raised = false := by
+        intro x; rw [decorFuncObj_raised]
+        simp only [Member.failsLeaf] at hf'
+        cases hw : conf.warn <;> simp_all
+      have hs : ∀ x, (decorFuncObjOpt env conf s x).raised = false := by
+        intro x; rw [decorFuncObjOpt_raised]
+        simp only [Member.failsLeaf] at hf'
+        cases hw : conf.warn <;> simp_all
+      have hd : ∀ x, (decorFuncObjOpt env conf d x).raised = false := by
+        intro x; rw [decorFuncObjOpt_raised]
+        simp only [Member.failsLeaf] at hf'
+        cases hw : conf.warn <;> simp_all
+      have ig := decorFuncObj_idem env conf g st
+      have is := decorFuncObjOpt_idem env conf s
+      have id := decorFuncObjOpt_idem env conf d
+      simp [decorLeaf, (ig _).1, (ig _).2, (is _ _).1, (is _ _).2, (id _ _).1, (id _ _).2, hg, hs, hd, Member.core]
     | klass k => simp [decorLeaf]
     | other o => simp [decorLeaf]
 
@@ -678,12 +696,6 @@ theorem decorFunc_shift (env : Env) (conf : Conf) (f : Func) (st : St) (k : Nat)
   simp only [Res.shift]
   func_bash f env conf
 
-theorem decorFuncOpt_shift (env : Env) (conf : Conf) (f : Option Func) (st : St) (k : Nat) :
-    decorFuncOpt env conf f ⟨st.next, st.warns + k⟩ = (decorFuncOpt env conf f st).shift k := by
-  cases f with
-  | none => rfl
-  | some f => simp [decorFuncOpt, decorFunc_shift, Res.shift]
-
 theorem guard_shift {α : Type} (conf : Conf) (orig : α) (r : Res α) (k : Nat) :
     guard conf orig (r.shift k) = (guard conf orig r).shift k := by
   unfold guard
@@ -695,6 +707,12 @@ theorem guard_shift {α : Type} (conf : Conf) (orig : α) (r : Res α) (k : Nat)
 theorem decorFuncObj_shift (env : Env) (conf : Conf) (f : Func) (st : St) (k : Nat) :
     decorFuncObj env conf f ⟨st.next, st.warns + k⟩ = (decorFuncObj env conf f st).shift k := by
   simp only [decorFuncObj, decorFunc_shift, guard_shift]
+
+theorem decorFuncObjOpt_shift (env : Env) (conf : Conf) (f : Option Func) (st : St) (k : Nat) :
+    decorFuncObjOpt env conf f ⟨st.next, st.warns + k⟩ = (decorFuncObjOpt env conf f st).shift k := by
+  cases f with
+  | none => rfl
+  | some f => simp [decorFuncObjOpt, decorFuncObj_shift, Res.shift]
 
 theorem decorLeaf_shift (env : Env) (conf : Conf) (m : Member) (st : St) (k : Nat) :
     decorLeaf env conf m ⟨st.next, st.warns + k⟩ = (decorLeaf env conf m st).shift k := by
@@ -709,7 +727,7 @@ theorem decorLeaf_shift (env : Env) (conf : Conf) (m : Member) (st : St) (k : Na
     simp only [decorLeaf, decorFuncObj_shift, Res.shift_raised]
     split <;> simp [Res.shift]
   | prop o doc g s d =>
-    simp only [decorLeaf, decorFunc_shift, Res.shift_raised, Res.shift_st, decorFuncOpt_shift, Res.shift_val]
+    simp only [decorLeaf, decorFuncObj_shift, Res.shift_raised, Res.shift_st, decorFuncObjOpt_shift, Res.shift_val]
     split
     · simp [Res.shift]
     · split
